@@ -21,6 +21,8 @@ def run(tier):
     c.add_tlc(pg, "polygon test: Mech (winding-number code) = Prop on every simple polygon x probe")
     beh += pg.behaviours
     beh = list(dict.fromkeys(beh))
+    for key in ('"great-circle"', '"roundtrip"', '"kdtree"', '"bezier"', '"polygon'):
+        if not any(key in b[:80] for b in beh): raise tlc.SetupError("no %s behaviours were emitted" % key)
     res = replay.replay(exe, beh, shards=16, timeout_s=300)
     c.add_replay(res, "direct kernel calls")
     for key in ('"kdtree"', '"bezier"', '"great-circle"'):
